@@ -80,6 +80,7 @@ type boundsCtx struct {
 	fitBusy    map[ssa.Value]bool
 	// substitution of parameters by caller-side terms (caller-established rule)
 	visitingPhi map[*ssa.Phi]bool
+	xtype       map[atom]types.Type // type of the value an opaque ('x') atom stands for
 	assumed     []lin // documented preconditions of the function (c04Assumes), as facts lin ≤ 0
 }
 
@@ -581,6 +582,16 @@ func (bc *boundsCtx) lin1(v ssa.Value) lin {
 				if bc.fitsAt(in, tb, tu, x) {
 					return in
 				}
+				// signed → unsigned of at least the same width keeps every non-negative value
+				if fb, fu, _ := intInfo(x.X.Type(), bc.intBits); !fu && tu && tb >= fb && x.Block() != nil && !bc.fitBusy[x] {
+					bc.fitBusy[x] = true
+					facts := append(append([]lin{}, bc.blockFacts(x.Block())...), bc.assumed...)
+					ok := bc.prove(in.neg(), facts, 3)
+					delete(bc.fitBusy, x)
+					if ok {
+						return in
+					}
+				}
 			}
 		}
 	case *ssa.BinOp:
@@ -604,6 +615,17 @@ func (bc *boundsCtx) lin1(v ssa.Value) lin {
 			}
 			if bc.noWrap(out, bits, uns) || bc.fitsAt(out, bits, uns, x) {
 				return out
+			}
+			// an unsigned difference of two values of the type cannot exceed the type: it is exact
+			// as soon as it is not negative (minuend ≥ subtrahend by the dominating conditions)
+			if uns && x.Op == token.SUB && x.Block() != nil && !bc.fitBusy[x] {
+				bc.fitBusy[x] = true
+				facts := append(append([]lin{}, bc.blockFacts(x.Block())...), bc.assumed...)
+				ok := bc.prove(out.neg(), facts, 3)
+				delete(bc.fitBusy, x)
+				if ok {
+					return out
+				}
 			}
 		case token.MUL:
 			if _, isC := constInt(x.Y); !isC {
@@ -963,7 +985,12 @@ func (bc *boundsCtx) atomRange(a atom) (lo, hi int64, hasLo, hasHi bool) {
 			return 0, 0, false, false
 		}
 		return lo, hi, true, true
-	case 'e', 'x':
+	case 'x':
+		if t, ok := bc.xtype[a]; ok {
+			return typeRange(t, bc.intBits)
+		}
+		return
+	case 'e':
 		return
 	case 'c':
 		lo, hasLo = 0, true
@@ -1248,6 +1275,9 @@ func (bc *boundsCtx) condFacts(cond ssa.Value, holds bool) []lin {
 			break
 		}
 		cond, holds = u.X, !holds
+	}
+	if call, isCall := cond.(*ssa.Call); isCall && holds {
+		return bc.boolHelperFacts(call)
 	}
 	b, ok := cond.(*ssa.BinOp)
 	if !ok {
@@ -2183,6 +2213,7 @@ func (bc *boundsCtx) resultIntFacts(a atom, at ssa.Instruction) []lin {
 	}
 	cb := newBoundsCtx(bc.w, g)
 	cb.inlineBusy = bc.inlineBusy + 1
+	bc.seedCallee(cb, g, call)
 	rl := cb.lin(RetResults(succ)[ex.Index])
 	// the returned value as one callee atom (plus a constant)
 	if len(rl.t) != 1 {
@@ -2209,6 +2240,94 @@ func (bc *boundsCtx) resultIntFacts(a atom, at ssa.Instruction) []lin {
 			continue
 		}
 		out = append(out, tr.add(linAtom(a), k).plus(-k*rl.k))
+	}
+	return out
+}
+
+// seedCallee: what this call site knows about the sign of its integer arguments becomes an
+// assumption about the callee's parameters (for this call only): a length passed as `size int`
+// is not negative, so uint64(size) is size.
+func (bc *boundsCtx) seedCallee(cb *boundsCtx, g *ssa.Function, call *ssa.Call) {
+	for i, p := range g.Params {
+		if i >= len(call.Call.Args) {
+			break
+		}
+		if _, _, isInt := intInfo(p.Type(), bc.intBits); !isInt {
+			continue
+		}
+		al := bc.lin(call.Call.Args[i])
+		nonNeg := false
+		if lo, ok := bc.lower(al); ok && lo >= 0 {
+			nonNeg = true
+		} else if bc.prove(al.neg(), bc.factsAt(al, call), 2) {
+			nonNeg = true
+		}
+		if nonNeg {
+			cb.assumed = append(cb.assumed, linAtom(atom{kind: 'v', v: p}).neg())
+		}
+	}
+}
+
+// boolHelperFacts: `if helper(args)` taken on its true edge, for a module function with a single
+// bool result that is true in exactly one way (one return, or one edge of the result φ that is
+// not the constant false): the comparisons that hold on that way — a range check written as a
+// predicate — hold in the caller with the parameters read as the arguments.
+func (bc *boundsCtx) boolHelperFacts(call *ssa.Call) []lin {
+	if bc.inlineBusy > 2 || call.Call.IsInvoke() {
+		return nil
+	}
+	g := call.Call.StaticCallee()
+	if g == nil || len(g.Blocks) == 0 || g.Pkg == nil || !inModule(g.Pkg.Pkg.Path()) || g == bc.fn {
+		return nil
+	}
+	res := g.Signature.Results()
+	if res.Len() != 1 || res.At(0).Type().String() != "bool" {
+		return nil
+	}
+	cb := newBoundsCtx(bc.w, g)
+	cb.inlineBusy = bc.inlineBusy + 1
+	bc.seedCallee(cb, g, call)
+	var facts []lin
+	ways := 0
+	for _, b := range g.Blocks {
+		ret, ok := lastInstr(b).(*ssa.Return)
+		if !ok || b == g.Recover {
+			continue
+		}
+		rs := RetResults(ret)
+		if len(rs) != 1 {
+			return nil
+		}
+		addWay := func(v ssa.Value, at *ssa.BasicBlock) {
+			if c, isC := v.(*ssa.Const); isC {
+				if c.Value != nil && c.Value.String() == "true" {
+					ways++
+					facts = append(facts, cb.blockFacts(at)...)
+				}
+				return // constant false: not a way to be true
+			}
+			ways++
+			facts = append(facts, cb.blockFacts(at)...)
+			facts = append(facts, cb.condFacts(v, true)...)
+		}
+		if phi, isPhi := rs[0].(*ssa.Phi); isPhi && phi.Block() == b {
+			for i, e := range phi.Edges {
+				if i < len(b.Preds) {
+					addWay(e, b.Preds[i])
+				}
+			}
+		} else {
+			addWay(rs[0], b)
+		}
+	}
+	if ways != 1 {
+		return nil
+	}
+	var out []lin
+	for _, f := range facts {
+		if tf, ok := translateLin(cb, bc, g, call, f); ok {
+			out = append(out, tf)
+		}
 	}
 	return out
 }
@@ -2290,7 +2409,7 @@ func (bc *boundsCtx) fitsAt(out lin, bits int, uns bool, def ssa.Instruction) bo
 	default:
 		lo, hi = -(int64(1) << uint(bits-1)), int64(1)<<uint(bits-1)-1
 	}
-	facts := append([]lin{}, bc.blockFacts(def.Block())...)
+	facts := append(append([]lin{}, bc.blockFacts(def.Block())...), bc.assumed...)
 	okLo := lo == -satMax || bc.prove(linConst(lo).add(out, -1), facts, 3)
 	okHi := hi == satMax || bc.prove(out.plus(-hi), facts, 3)
 	return okLo && okHi
